@@ -303,7 +303,7 @@ def observe(mode, channel, loc, role, version, pid, fix):
     cls = XMLSchema11 if version == '1.1' else XMLSchema10
     if role in ('instance', 'validate', 'lazy'):
         rel, data, denc = 'doc.xml', render(pid, 'instance', fix.dir), enc
-    elif role == 'main':
+    elif role in ('main', 'docschema'):
         rel, data, denc = 'main.xsd', render(pid, 'schema', fix.dir), enc
     else:
         inc_rel = 'inc/p.xsd' if role == 'include' else 'inc/q.xsd'
@@ -332,6 +332,10 @@ def observe(mode, channel, loc, role, version, pid, fix):
                     obs['tree'] = [first, rest]
                 elif role == 'validate':
                     obs['tree'] = xmlschema.to_dict(source, schema=instance_schema(), **kw)
+                elif role == 'docschema':
+                    # document-level API, the payload is in the schema given as a SOURCE: the keyword arguments
+                    # (defuse among them) must reach the schema that the API builds
+                    obs['tree'] = ['is_valid', xmlschema.is_valid('<pay1>v</pay1>', schema=source, cls=cls, **kw)]
                 else:
                     schema = cls(source, **kw)
                     obs['tree'] = canon(schema.source.root)
@@ -452,7 +456,8 @@ def judge(mode, channel, loc, role, version, pid, fix, baseline=None):
 def role_versions(tier, seed):
     """(role, version, next_bound?)"""
     out = [(r, '1.0', False) for r in BASE_ROLES]
-    out += [('lazy', '1.0', True), ('main', '1.1', True), ('include', '1.1', True), ('import', '1.1', True)]
+    out += [('lazy', '1.0', True), ('main', '1.1', True), ('include', '1.1', True), ('import', '1.1', True),
+            ('docschema', '1.0', True)]
     return out
 
 
